@@ -7,8 +7,15 @@
     zero = unbuffered included; the code is [code_cfg bufferSize], chanIn
     unbuffered) and over every schedule [ls] accepted by [run] from [init],
     i.e. every interleaving of producer, consumer, worker and stop steps, with
-    no bound on lengths. *)
+    no bound on lengths.
+
+    The first part is about chain.ConcurrentQueue (chain/queue.go, used by the
+    bitcoind backend).  The second part ([Module Slice], at the end) is about
+    the inline slice queues of the btcd backend (chain/btcd.go, handler) and of
+    the neutrino backend (chain/neutrino.go, notificationHandler): proofs in
+    Queue/SliceQueueProofs.v. *)
 From Verif Require Import Base.Prelude Queue.Queue Queue.QueueProofs Queue.QueueCorr.
+From Verif Require Queue.SliceQueue Queue.SliceQueueProofs Queue.SliceQueueCorr Generated.QueueSites.
 
 (** (a) Conservation and order.  At every point of every schedule the items
     received so far, followed by what sits in chanOut, the overflow list, the
@@ -177,3 +184,209 @@ Example C18_checker_discriminates :
   model_accepts (code_cfg 2) [ESend 1; ESend 2; ERecv 2]%N = false /\
   oracle_ok [ESend 1; ESend 2; ERecv 2]%N = false.
 Proof. vm_compute. repeat split. Qed.
+
+(** * The inline slice queues of the btcd and neutrino backends
+
+    Model: Queue/SliceQueue.v.  The four locals of the loop (pending slice,
+    [next], whether [dequeue] is non-nil, whether [enqueue] is non-nil) are
+    independent state variables, as in the code; the worker is always at its one
+    select, so a schedule is a list of rendezvous ([Send], [Recv], [ReadBS]),
+    environment actions ([Stop], [CloseIn], [SeeClosed]) and the worker's two
+    own cases ([WQuit], [WInClosed]).  Every theorem quantifies over the best
+    block [b0] at start and over every schedule accepted by [run canonical]
+    from [init b0]; no bound on lengths. *)
+Module Slice.
+Import Verif.Queue.SliceQueue Verif.Queue.SliceQueueProofs Verif.Queue.SliceQueueCorr.
+Import Verif.Generated.QueueSites.
+
+(** Tie to the source: the facts read from chain/btcd.go and chain/neutrino.go
+    by harness/cmd/extract-c18 (append at the tail after arming the send case
+    when the slice was empty; shift by one, then refresh [next] from the head;
+    disarm the send case when the slice became empty; best-block bookkeeping on
+    the element just delivered; the select has the quit case; the output
+    channel is closed after the loop; Notifications() returns that channel)
+    are exactly the shape the theorems below are about. *)
+Theorem C18_slice_code_shape :
+  btcd_handler_shape = canonical /\ neutrino_handler_shape = canonical /\
+  btcd_handler_out_is_dequeue = true /\ neutrino_handler_out_is_dequeue = true.
+Proof. repeat split; reflexivity. Qed.
+Print Assumptions C18_slice_code_shape.
+
+(** (a) Conservation and order: at every point of every schedule, what the
+    consumer has received followed by the pending slice is exactly what was
+    handed over so far, in the order of the [Send] labels. *)
+Theorem C18_slice_conservation_and_order : forall b0 ls s,
+  run canonical (init b0) ls = Some s ->
+  rcvd s ++ pend s = sent s /\ sent s = sends_of ls.
+Proof.
+  intros b0 ls s H. split.
+  - exact (conservation b0 ls s H).
+  - exact (sent_is_schedule b0 ls s H).
+Qed.
+Print Assumptions C18_slice_conservation_and_order.
+
+Theorem C18_slice_received_is_prefix_exact_when_drained : forall b0 ls s,
+  run canonical (init b0) ls = Some s ->
+  (exists rest, sent s = rcvd s ++ rest)
+  /\ (NoDup (sent s) -> NoDup (rcvd s))
+  /\ (pend s = [] -> rcvd s = sent s).
+Proof.
+  intros b0 ls s H. repeat split.
+  - exact (received_prefix b0 ls s H).
+  - exact (no_duplication b0 ls s H).
+  - exact (drained_exact b0 ls s H).
+Qed.
+Print Assumptions C18_slice_received_is_prefix_exact_when_drained.
+
+(** What the consumer is handed is the local [next]; that it IS the oldest
+    pending notification, and that the slice is non-empty whenever the send
+    case fires, is proved (the model does not assume it). *)
+Theorem C18_slice_recv_delivers_oldest_pending : forall b0 s s',
+  reachable canonical b0 s -> step canonical s Recv = Some s' ->
+  exists v rest, pend s = v :: rest /\ recv_val s = Some v /\
+                 rcvd s' = rcvd s ++ [v] /\ pend s' = rest.
+Proof. exact recv_delivers_head. Qed.
+Print Assumptions C18_slice_recv_delivers_oldest_pending.
+
+(** The loop never indexes an empty slice; the send case is armed exactly when
+    something is pending and then offers the head; the output channel is closed
+    exactly when the loop has been left. *)
+Theorem C18_slice_control_state : forall b0 ls s,
+  run canonical (init b0) ls = Some s ->
+  panicked s = false /\
+  (done s = false -> armed s = nonempty (pend s)) /\
+  (pend s <> [] -> nxt s = hd_ntfn (pend s)) /\
+  closed s = done s.
+Proof. exact control_state. Qed.
+Print Assumptions C18_slice_control_state.
+
+(** The best block served by BlockStamp() is the height of the last
+    BlockConnected DELIVERED (not merely enqueued), else the initial one. *)
+Theorem C18_slice_best_block_follows_delivery : forall b0 ls s,
+  run canonical (init b0) ls = Some s -> bs s = last_connected b0 (rcvd s).
+Proof. exact best_block_follows_delivery. Qed.
+Print Assumptions C18_slice_best_block_follows_delivery.
+
+(** (b) The producer is never blocked by a slow consumer: in every reachable
+    state in which the loop is alive (and nobody closed the input channel) a
+    hand-over of any value is enabled AT ONCE - no consumer step and no worker
+    step is needed. *)
+Theorem C18_slice_producer_never_blocked : forall b0 s,
+  reachable canonical b0 s -> running s -> forall x, step canonical s (Send x) <> None.
+Proof. exact producer_never_blocked. Qed.
+Print Assumptions C18_slice_producer_never_blocked.
+
+Theorem C18_slice_any_burst_without_consumer : forall b0 xs,
+  exists s', run canonical (init b0) (map Send xs) = Some s' /\
+    sent s' = xs /\ rcvd s' = [] /\ pend s' = xs /\ running s' /\ stopped s' = false.
+Proof. exact burst_from_init. Qed.
+Print Assumptions C18_slice_any_burst_without_consumer.
+
+(** Draining is always possible while the loop lives: [length (pend s)]
+    receives, and nothing else, deliver everything that was handed over. *)
+Theorem C18_slice_drain_possible : forall b0 s,
+  reachable canonical b0 s -> done s = false ->
+  exists s', run canonical s (repeat Recv (length (pend s))) = Some s' /\
+    pend s' = [] /\ sent s' = sent s /\ rcvd s' = sent s.
+Proof. exact drain_reachable. Qed.
+Print Assumptions C18_slice_drain_possible.
+
+(** (c) Stop.  Once quit is closed the loop's quit case is enabled as long as
+    the loop is alive; taking it leaves the loop and closes the output channel;
+    worker-only runs have length <= 2 and one that cannot be extended has
+    terminated.  PARTIAL as for the ConcurrentQueue: that select actually TAKES
+    the quit case while producer and consumer keep the other cases ready is a
+    fairness property of Go's select; not proved. *)
+Theorem C18_slice_stop_terminates_partial : forall s,
+  stopped s = true ->
+  (done s = false -> exists s', step canonical s WQuit = Some s' /\ done s' = true /\ closed s' = true) /\
+  (forall ls s', forallb is_worker ls = true -> run canonical s ls = Some s' ->
+     length ls <= 2 /\ stopped s' = true /\
+     ((forall l, is_worker l = true -> step canonical s' l = None) -> done s' = true)).
+Proof. exact stop_terminates_partial. Qed.
+Print Assumptions C18_slice_stop_terminates_partial.
+
+Theorem C18_slice_terminated_worker_is_final : forall s l s',
+  done s = true -> step canonical s l = Some s' ->
+  is_worker l = false /\ is_send l = false /\ is_recv l = false /\
+  done s' = true /\ pend s' = pend s /\ sent s' = sent s /\ rcvd s' = rcvd s /\ closed s' = closed s.
+Proof. exact done_final. Qed.
+Print Assumptions C18_slice_terminated_worker_is_final.
+
+(** The correspondence checker is sound by construction (as above). *)
+Theorem C18_slice_accepted_script_is_model_run : forall b0 script,
+  model_accepts canonical b0 script = true ->
+  exists ls s, run canonical (init b0) ls = Some s /\ observe canonical (init b0) ls = Some script /\
+    sent s = ext_sends script /\ rcvd s = ext_recvs script /\
+    exists rest, ext_sends script = ext_recvs script ++ rest.
+Proof. exact accepted_is_model_run. Qed.
+Print Assumptions C18_slice_accepted_script_is_model_run.
+
+(** Non-vacuity: a burst of four with no consumer, best-block reads that follow
+    DELIVERY, drain, stop and quit; and a stop in the middle of a backlog. *)
+Example C18_slice_run :
+  let a := Other 1%N in let b := Connected 2%N in let c := Other 3%N in let d := Connected 4%N in
+  (exists s, run canonical (init 9) [Send a; Send b; Send c; Send d] = Some s /\
+             pend s = [a; b; c; d] /\ rcvd s = [] /\ bs s = 9%N /\ nxt s = a /\ armed s = true) /\
+  (exists s, run canonical (init 9) [Send a; Send b; Send c; Send d; Recv; ReadBS; Recv; ReadBS; Recv; Recv] = Some s /\
+             rcvd s = [a; b; c; d] /\ pend s = [] /\ armed s = false /\ bs s = 4%N) /\
+  observe canonical (init 9) [Send a; Send b; ReadBS; Recv; ReadBS; Recv; ReadBS]
+    = Some [ESend a; ESend b; EBS 9; ERecv a; EBS 9; ERecv b; EBS 2] /\
+  (exists s, run canonical (init 9) [Send a; Send b; Recv; Stop; Recv; Send c; WQuit; SeeClosed] = Some s /\
+             done s = true /\ closed s = true /\ rcvd s = [a; b] /\ pend s = [c] /\
+             step canonical s Recv = None /\ step canonical s (Send d) = None) /\
+  (* the closed-input branch: the backlog is still delivered, then the loop ends *)
+  (exists s, run canonical (init 9) [Send a; Send b; CloseIn; WInClosed; Recv; Recv] = Some s /\
+             done s = true /\ rcvd s = [a; b]).
+Proof. vm_compute. repeat split; try (eexists; repeat split). Qed.
+
+(** Every fact of the shape is NEEDED: with any one of them flipped (the slip it
+    stands for, see SliceQueue.shape) a short schedule violates the property. *)
+Example C18_slice_each_fact_is_needed :
+  let a := Other 1%N in let b := Other 2%N in
+  (* new element put in front: a is delivered twice, b never *)
+  (exists s, run (Shape false true true true true true true) (init 0) [Send a; Send b; Recv; Recv] = Some s /\
+             rcvd s = [a; a] /\ sent s = [a; b] /\ pend s = []) /\
+  (* arming block missing: nothing is ever delivered *)
+  (exists s, run (Shape true false true true true true true) (init 0) [Send a] = Some s /\
+             pend s = [a] /\ step (Shape true false true true true true true) s Recv = None) /\
+  (* next refreshed before the shift: a twice, b lost *)
+  (exists s, run (Shape true true false true true true true) (init 0) [Send a; Send b; Recv; Recv] = Some s /\
+             rcvd s = [a; a] /\ sent s = [a; b] /\ pend s = []) /\
+  (* dequeue not nil-ed when the slice empties: a delivered again, then index out of range *)
+  (exists s, run (Shape true true true false true true true) (init 0) [Send a; Recv; Recv] = Some s /\
+             rcvd s = [a; a] /\ sent s = [a] /\ panicked s = true) /\
+  (* no bookkeeping: BlockStamp() stays at the initial block *)
+  (exists s, run (Shape true true true true false true true) (init 7) [Send (Connected 8); Recv] = Some s /\
+             bs s = 7%N /\ last_connected 7 (rcvd s) = 8%N) /\
+  (* no quit case: the worker cannot terminate *)
+  (exists s, run (Shape true true true true true false true) (init 0) [Stop] = Some s /\
+             forall l, is_worker l = true -> step (Shape true true true true true false true) s l = None) /\
+  (* no close: the consumer never learns that the loop ended *)
+  (exists s, run (Shape true true true true true true false) (init 0) [Stop; WQuit] = Some s /\
+             done s = true /\ step (Shape true true true true true true false) s SeeClosed = None).
+Proof.
+  vm_compute. repeat split; try (eexists; repeat split).
+  intros l H; destruct l; try discriminate; reflexivity.
+Qed.
+
+(** The correspondence checker accepts real behaviours and rejects scripts that
+    lose, duplicate or reorder items, serve a wrong best block, deliver the nil
+    value, or report the channel closed while the loop must still be running. *)
+Example C18_slice_checker_discriminates :
+  let a := Other 1%N in let b := Connected 2%N in let c := Other 3%N in
+  case_ok (9%N, [ESend a; ESend b; EBS 9; ERecv a; ERecv b; EBS 2; ESend c; EStop; ERecv c; EClosed]) = true /\
+  case_ok (9%N, [ESend a; ESend b; EStop; EClosed]) = true /\
+  case_ok (9%N, [ESend a; ESend b; ERecv b]) = false /\
+  case_ok (9%N, [ESend a; ESend b; ERecv a; ERecv a]) = false /\
+  case_ok (9%N, [ESend a; ERecv a; ERecv a]) = false /\
+  case_ok (9%N, [ESend a; ERecv a; ERecv NilNtfn]) = false /\
+  case_ok (9%N, [ESend a; ESend b; EBS 2]) = false /\
+  case_ok (9%N, [ESend a; ESend b; ERecv a; ERecv b; EBS 9]) = false /\
+  case_ok (9%N, [ESend a; EClosed]) = false /\
+  case_ok (9%N, [ESend a; EStop; EClosed; ERecv a]) = false /\
+  model_accepts canonical 9 [ESend a; ESend b; ERecv b] = false /\
+  oracle_ok [ESend a; ESend b; ERecv b] = false.
+Proof. vm_compute. repeat split. Qed.
+
+End Slice.
